@@ -175,9 +175,12 @@ class Func:
                     out.append((s, "default"))
             return out
         if "cond" in t and len(b.succs) == 2:
-            if b.succs[0] is not None:
+            # a condition that clang folds to a constant (`if (SKIP_DUMMY_BYTES)`,
+            # `while (0)`) has only one feasible edge
+            cv = self.exprs[t["cond"]].get("v") if t["kind"] in ("IfStmt", "WhileStmt", "DoStmt", "ForStmt", "ConditionalOperator") else None
+            if b.succs[0] is not None and not (cv is not None and cv == 0):
                 out.append((b.succs[0], "T"))
-            if b.succs[1] is not None:
+            if b.succs[1] is not None and not (cv is not None and cv != 0):
                 out.append((b.succs[1], "F"))
             return out
         return [(s, None) for s in b.succs if s is not None]
